@@ -17,7 +17,17 @@ RULE = ("configurations (brightness px, g2, indistinguishability = s^2, transmit
         "NoiseModel/Source.from_noise_model, _compute_prob_table (keys, values, physical performance, zero-photon "
         "probability, with and without filter), and the sampler generate_samples (with and without a min-photon "
         "filter) by a chi-square goodness-of-fit test against the model's exact probabilities. Non-trivial: g2 > 0 "
-        "and transmittance < 1; distinct by (configuration, input, filter).")
+        "and transmittance < 1; distinct by (configuration, input, filter). HISTORIES on one object: (a) one Source "
+        "receives 4-7 calls among generate_distribution / probability_distribution / cache_prob_table / "
+        "generate_samples with varying input and filter, mostly at the SAME total photon count (non-trivial: two "
+        "different non-zero filters in the history); (b) one Processor (identity circuit) whose noise is replaced by "
+        "a new NoiseModel, by the user's NoiseModel object mutated in place with set_value and assigned again, "
+        "re-assigned unchanged, set to None, whose input changes, and which is sampled through "
+        "processor.source.generate_samples and Processor.samples under a changing min_detected_photons_filter "
+        "(non-trivial: history contains an in-place mutation or None). After EVERY step the observable "
+        "(distribution, returned physical performance / zero-photon probability, cached table, samples by "
+        "goodness-of-fit, filter respected, Source fields, perfect-source identity) is compared with the model "
+        "evaluated at the CURRENT parameters, input and filter; failing histories are shrunk by deleting operations.")
 TRUSTED = ["model: coq/Model/Source.v, SourceX.v (hand-written from perceval/components/source.py; tied by this stream)",
            "scipy.stats.chi2 for the tail probability of the goodness-of-fit statistic",
            "exqalibur BSDistribution/BasicState merge/tensor kernels have no model of their own: they are compared with "
@@ -548,6 +558,440 @@ def guarded(ctx, sigprefix, cfg, fn, *args):
         return [(f"exception-{sigprefix}-{type(e).__name__}", f"{sigprefix} raised {type(e).__name__}: {e}", None, None)]
 
 
+# ------------------------------------------------------------------ histories on ONE object
+# Everything above queries a fresh Source / Processor once.  The streams below keep one object alive and compare
+# every step with the model evaluated at the CURRENT parameters, input and filter: the model is a pure function of
+# those (theorem C06_answers_depend_on_current_arguments_only), so any dependence on the history is a failure.
+PERFECT = None     # set below (needs Cfg)
+
+
+def cfg_to_json(cfg):
+    return None if cfg is None else cfg.describe()
+
+
+def cfg_from_json(s):
+    if s is None:
+        return None
+    return Cfg(F(s["brightness"]), F(s["g2"]), F(s["sqrt(1-2*px*g2)"]), F(s["sqrt(indistinguishability)"]),
+               F(s["transmittance"]), s["g2_distinguishable"])
+
+
+def op_seed(seed0, op):
+    import hashlib
+    return int.from_bytes(hashlib.sha256(json.dumps([seed0, op], default=str).encode()).digest()[:4], "big") % (2 ** 31)
+
+
+def count_samples(smp):
+    first, cnt = {}, Counter()
+    for x in smp:
+        s = str(x)
+        if s not in first:
+            first[s] = canon_bs(x)
+        cnt[first[s]] += 1
+    return cnt, first
+
+
+def nphot(k):
+    return sum(k[0]) + sum(sum(v) for v in k[1])
+
+
+def sample_findings(mdl, cfg, inp, f, smp, nsamples, prefix):
+    """compare a list of sampled states with the model distribution of (cfg, inp) conditioned on >= f photons"""
+    import perceval as pcvl
+    res = []
+    if f:
+        km, exp = kept_mass(mdl, cfg, inp, f)
+        if km == 0:
+            return res
+    else:
+        _, exp = expected_dist(mdl, cfg, inp)
+    if len(smp) != nsamples:
+        return [(prefix + "-count", "another number of samples was returned", nsamples, len(smp))]
+    cnt, first = count_samples(smp)
+    if cfg.perfect():
+        if list(first) != [str(pcvl.BasicState(inp))]:
+            res.append((prefix + "-perfect-source", "a perfect source does not sample the requested state",
+                        str(pcvl.BasicState(inp)), str(list(first)[:3])))
+        return res
+    if f and any(nphot(k) < f for k in cnt):
+        res.append((prefix + "-filter-violated", "a sampled state has fewer photons than the CURRENT min-photon filter",
+                    f, min(nphot(k) for k in cnt)))
+    pv, detail = gof(exp, cnt, nsamples)
+    if pv < ALPHA:
+        res.append((prefix + "-gof" + ("-filtered" if f else ""),
+                    "samples are not drawn from the model distribution at the current parameters"
+                    + (" conditioned on the current filter" if f else ""), "p >= 1e-9", json.dumps(detail)))
+    return res
+
+
+def source_history_requests(cfg, ops):
+    reqs = []
+    for op in ops:
+        if op[0] == "dist":
+            reqs.append([603, [cfg.tree(), 0, op[1]]])
+        elif op[0] == "pd":
+            reqs.append([602, [cfg.tree(), 0, op[1]]])
+        elif op[0] == "table":
+            reqs.append([604, [cfg.tree(), op[1], op[2]]])
+        elif op[0] == "sample":
+            reqs.append([603, [cfg.tree(), 0, op[1]]])
+            if op[2]:
+                reqs.append([606, [cfg.tree(), 0, op[1], op[2]]])
+                reqs.append([604, [cfg.tree(), sum(op[1]), op[2]]])
+    return reqs
+
+
+def run_source_history(mdl, cfg, ops, nsamples, seed0):
+    """ops on ONE Source: ("dist", inp) ("pd", n) ("table", n, f) ("sample", inp, f). Returns [(sig, what, exp, obs, step)]"""
+    import perceval as pcvl
+    src = cfg.source()
+    out = []
+    for step, op in enumerate(ops):
+        res = []
+        try:
+            if op[0] == "dist":
+                _, exp = expected_dist(mdl, cfg, op[1])
+                obs = canon_svd(src.generate_distribution(pcvl.BasicState(op[1]), prob_threshold=0))
+                df = None if obs is None else dist_diff(exp, obs)
+                if obs is None or df:
+                    res.append(("history-source-distribution", "generate_distribution on a used Source differs from the model"
+                                + ("" if not df else " at state " + show(df[0])), df and df[1], df and df[2]))
+            elif op[0] == "pd":
+                o = mdl.get(602, [cfg.tree(), 0, op[1]])
+                exp = canon_model([([e[0]], e[1]) for e in o[0]])
+                obs = canon_svd(src.probability_distribution(op[1], prob_threshold=0))
+                df = None if obs is None else dist_diff(exp, obs)
+                if obs is None or df:
+                    res.append(("history-source-probability_distribution", "probability_distribution on a used Source differs",
+                                df and df[1], df and df[2]))
+            elif op[0] == "table":
+                o = mdl.get(604, [cfg.tree(), op[1], op[2]])
+                phys, zpp = un_q(o[1]), un_q(o[2])
+                if phys != 0:
+                    ophys, ozpp = src.cache_prob_table(op[1], op[2])
+                    if abs(ophys - float(phys)) > TOL or abs(ozpp - float(zpp)) > TOL:
+                        res.append(("history-source-cache_prob_table", "cache_prob_table(n, f) on a used Source returns another "
+                                    "(physical performance, zero-photon probability) than the table of (n, f)",
+                                    str((float(phys), float(zpp))), str((ophys, ozpp))))
+                    res += cached_table_findings(mdl, cfg, src, op[1], op[2])
+            elif op[0] == "sample":
+                inp, f = op[1], op[2]
+                if f and kept_mass(mdl, cfg, inp, f)[0] == 0:
+                    continue
+                pcvl.random_seed(op_seed(seed0, op))
+                smp = src.generate_samples(nsamples, pcvl.BasicState(inp), f)
+                res += sample_findings(mdl, cfg, inp, f, smp, nsamples, "history-source-sample")
+                if f and not cfg.perfect():
+                    res += cached_table_findings(mdl, cfg, src, sum(inp), f)
+        except Exception as e:
+            res.append((f"history-source-exception-{op[0]}-{type(e).__name__}", f"{op[0]} raised {type(e).__name__}: {e}", None, None))
+        out += [r + (step,) for r in res]
+        if res:
+            break
+    return out
+
+
+def cached_table_findings(mdl, cfg, src, n, f):
+    """white box (read only): after a filtered call the cached event table must be the table of the CURRENT (n, f)"""
+    o = mdl.get(604, [cfg.tree(), n, f])
+    exp = {tuple(e[0]): float(un_q(e[1])) for e in o[0]}
+    tab = src._prob_table
+    if tab is None:
+        return []
+    if (src._prob_table_n, src._prob_table_filter) != (n, f) or set(tab) != set(exp) or \
+            any(abs(tab[k] - exp[k]) > TOL for k in exp):
+        return [("history-source-cached-table", "the event table cached on the Source is not the table of the current "
+                 "(photon count, filter)", str((n, f)), str((src._prob_table_n, src._prob_table_filter)))]
+    return []
+
+
+def gen_source_history(rng, cfg):
+    cap = 4 if cfg.tagged() else 6
+    n = rng.rint(2, cap)
+
+    def inp_of(total):
+        m = rng.rint(1, 4)
+        for _ in range(60):
+            s = [rng.rint(0, 3) for _ in range(m)]
+            if sum(s) == total:
+                return s
+        return [1] * total if total <= 4 else [3, total - 3]
+    ops = []
+    for _ in range(rng.rint(4, 7)):
+        k = rng.below(10)
+        tot = n if rng.chance(4, 5) else rng.rint(1, cap)       # mostly the SAME photon count: caches keyed on n survive
+        if k < 5:
+            ops.append(("sample", inp_of(tot), rng.rint(0, tot)))
+        elif k < 7:
+            ops.append(("table", tot, rng.rint(0, tot + 1)))
+        elif k < 9:
+            ops.append(("dist", inp_of(tot)))
+        else:
+            ops.append(("pd", rng.rint(0, 3)))
+    return ops
+
+
+def shrink_ops(ops, sig, test):
+    """delete operations while the same signature persists"""
+    changed = True
+    while changed:
+        changed = False
+        for i in range(len(ops)):
+            cand = ops[:i] + ops[i + 1:]
+            try:
+                if cand and any(r[0] == sig for r in test(cand)):
+                    ops = cand
+                    changed = True
+                    break
+            except Exception:
+                continue
+    return ops
+
+
+# ---- Processor histories
+NOISE_FIELDS = ["brightness", "indistinguishability", "g2", "g2_distinguishable", "transmittance"]
+
+
+def noise_values(cfg):
+    return {"brightness": float(cfg.px), "indistinguishability": float(cfg.ind), "g2": float(cfg.g2),
+            "g2_distinguishable": cfg.dm, "transmittance": float(cfg.t)}
+
+
+def perfect_cfg():
+    return Cfg(1, 0, 1, 1, 1, True)
+
+
+def proc_history_requests(first_cfg, inp0, ops):
+    reqs, cur, inp = [], first_cfg or perfect_cfg(), inp0
+    reqs.append([603, [cur.tree(), 0, inp]])
+    for op in ops:
+        if op[0] in ("new", "mutate"):
+            cur = op[1]
+        elif op[0] == "none":
+            cur = perfect_cfg()
+        elif op[0] == "input":
+            inp = op[1]
+        reqs.append([603, [cur.tree(), 0, inp]])
+        if op[0] in ("psample", "ssample") and op[1]:
+            reqs.append([606, [cur.tree(), 0, inp, op[1]]])
+            reqs.append([604, [cur.tree(), sum(inp), op[1]]])
+    return reqs
+
+
+def run_proc_history(mdl, first_cfg, inp0, ops, nsamples, seed0):
+    """ONE Processor (identity circuit). ops: ("new", cfg) a new NoiseModel object; ("mutate", cfg) the user's NoiseModel
+    object changed in place with set_value and assigned again; ("reassign",) the same object assigned again unchanged;
+    ("none",) noise = None; ("input", inp); ("ssample", f) processor.source.generate_samples; ("psample", f)
+    Processor.samples under min_detected_photons_filter(f).  After EVERY op source_distribution, the Source fields and
+    the perfect-source identity are compared with the model at the current parameters."""
+    import perceval as pcvl
+    out = []
+    cur, inp = first_cfg or perfect_cfg(), list(inp0)
+    nm = pcvl.NoiseModel(**noise_values(first_cfg)) if first_cfg is not None else None
+    held = nm                       # the user's NoiseModel object (kept across noise = None)
+    held_cfg = first_cfg            # the parameters that object currently carries
+    p = pcvl.Processor("CliffordClifford2017", len(inp), noise=nm)
+    p.with_input(pcvl.BasicState(inp))
+    p.min_detected_photons_filter(0)
+    for step, op in enumerate([("init",)] + list(ops)):
+        res = []
+        try:
+            if op[0] == "new":
+                cur = held_cfg = op[1]
+                held = pcvl.NoiseModel(**noise_values(cur))
+                p.noise = held
+            elif op[0] == "mutate":
+                cur = held_cfg = op[1]
+                if held is None:
+                    held = pcvl.NoiseModel()
+                for name, v in noise_values(cur).items():
+                    held.set_value(name, v)
+                p.noise = held
+            elif op[0] == "reassign":
+                if held is not None:
+                    cur = held_cfg
+                    p.noise = held
+            elif op[0] == "none":
+                cur = perfect_cfg()
+                p.noise = None
+            elif op[0] == "input":
+                inp = list(op[1])
+                p.with_input(pcvl.BasicState(inp))
+            # ---- after every step: the processor's source follows the CURRENT parameters
+            s = p.source
+            obsf = [s._emission_probability, s._multiphoton_component, s._indistinguishability, 1 - s._losses,
+                    s._multiphoton_model == "distinguishable"]
+            expf = [float(cur.px), float(cur.g2), float(cur.ind), float(cur.t), cur.dm]
+            if any(abs(float(a) - float(b)) > 1e-12 for a, b in zip(expf[:4], obsf[:4])) or (expf[4] != obsf[4] and cur.g2 != 0):
+                res.append(("history-processor-source-fields", "the Processor's Source does not carry the current noise parameters",
+                            str(expf), str(obsf)))
+            rep = p.noise
+            repf = [rep.brightness, rep.g2, rep.indistinguishability, rep.transmittance]
+            if any(abs(float(a) - float(b)) > 1e-12 for a, b in zip([expf[0], expf[1], expf[2], expf[3]], repf)):
+                res.append(("history-processor-noise-report", "processor.noise does not report the parameters just set",
+                            str(expf), str(repf)))
+            _, exp = expected_dist(mdl, cur, inp)
+            d = p.source_distribution
+            obs = canon_svd(d)
+            df = None if obs is None else dist_diff(exp, obs)
+            if obs is None or df:
+                res.append(("history-processor-source_distribution", "Processor.source_distribution differs from the model at the "
+                            "CURRENT noise parameters" + ("" if not df else ", state " + show(df[0])), df and df[1], df and df[2]))
+            if cur.perfect():
+                keys = [str(k) for k in d.keys()]
+                if keys != [str(pcvl.StateVector(pcvl.BasicState(inp)))] or abs(list(d.values())[0] - 1) > 0:
+                    res.append(("history-processor-perfect-source", "noise is perfect but the input mixture is not the requested state",
+                                str(pcvl.BasicState(inp)), str(keys[:3])))
+            if op[0] == "ssample" and sum(inp) >= max(op[1], 1) and cur.t > 0:
+                f = op[1]
+                if not (f and kept_mass(mdl, cur, inp, f)[0] == 0):
+                    pcvl.random_seed(op_seed(seed0, [step, op]))
+                    smp = p.source.generate_samples(nsamples, pcvl.BasicState(inp), f)
+                    res += sample_findings(mdl, cur, inp, f, smp, nsamples, "history-processor-source-sample")
+            if op[0] == "psample" and sum(inp) >= max(op[1], 1) and cur.t > 0:
+                f = op[1]
+                if not (f and kept_mass(mdl, cur, inp, f)[0] == 0):
+                    pcvl.random_seed(op_seed(seed0, [step, op]))
+                    p.min_detected_photons_filter(f)
+                    r = p.samples(nsamples)
+                    p.min_detected_photons_filter(0)
+                    res += psample_findings(mdl, cur, inp, f, r, nsamples)
+        except Exception as e:
+            res.append((f"history-processor-exception-{op[0]}-{type(e).__name__}", f"{op[0]} raised {type(e).__name__}: {e}", None, None))
+        out += [r + (step,) for r in res]
+        if res:
+            break
+    return out
+
+
+def psample_findings(mdl, cfg, inp, f, r, nsamples):
+    """Processor.samples on the identity circuit with photon-number-resolving detection: the output photon counts per
+    mode follow the input mixture conditioned on the filter; physical_perf is the kept mass."""
+    if f:
+        km, exp = kept_mass(mdl, cfg, inp, f)
+    else:
+        km, (_, exp) = F(1), expected_dist(mdl, cfg, inp)
+    marg = {}
+    for k, pr in exp.items():
+        counts = tuple(z + sum(v[i] for v in k[1]) for i, z in enumerate(k[0]))
+        marg[counts] = marg.get(counts, F(0)) + pr
+    res = []
+    smp = r["results"]
+    cnt = Counter(tuple(x) for x in smp)
+    if f and any(sum(k) < f for k in cnt):
+        res.append(("history-processor-samples-filter-violated", "Processor.samples returned a state below the current filter",
+                    f, min(sum(k) for k in cnt)))
+    if abs(float(r["physical_perf"]) - float(km)) > TOL:
+        res.append(("history-processor-samples-physical_perf", "Processor.samples reports a physical performance that is not "
+                    "the mass the current input mixture puts on >= filter photons", float(km), float(r["physical_perf"])))
+    if len(smp) == nsamples:
+        pv, detail = gof(marg, cnt, nsamples)
+        if pv < ALPHA:
+            res.append(("history-processor-samples-gof", "Processor.samples (identity circuit) does not follow the photon-count "
+                        "law of the current input mixture conditioned on the current filter", "p >= 1e-9", json.dumps(detail)))
+    else:
+        res.append(("history-processor-samples-count", "another number of samples was returned", nsamples, len(smp)))
+    return res
+
+
+def gen_proc_history(rng, pool):
+    def pick():
+        for _ in range(50):
+            c = rng.choice(pool)
+            if c.t > 0:
+                return c
+        return pool[0]
+    first = pick() if rng.chance(3, 4) else None
+    first_tagged = True
+    m = rng.rint(1, 3)
+
+    def an_input():
+        for _ in range(60):
+            s = [rng.rint(0, 2) for _ in range(m)]
+            if 1 <= sum(s) <= 4:
+                return s
+        return [1] * m
+    inp0 = an_input()
+    ops = []
+    for _ in range(rng.rint(4, 8)):
+        k = rng.below(12)
+        if k < 3:
+            ops.append(("mutate", pick()))
+        elif k < 5:
+            ops.append(("new", pick()))
+        elif k == 5:
+            ops.append(("none",))
+        elif k == 6:
+            ops.append(("reassign",))
+        elif k == 7:
+            ops.append(("input", an_input()))
+        elif k < 10:
+            ops.append(("ssample", rng.rint(0, 3)))
+        else:
+            ops.append(("psample", rng.rint(0, 3)))
+    return first, inp0, ops
+
+
+def ops_to_json(ops):
+    return [[op[0]] + [cfg_to_json(x) if isinstance(x, Cfg) else x for x in op[1:]] for op in ops]
+
+
+def ops_from_json(js):
+    return [tuple([o[0]] + [cfg_from_json(x) if isinstance(x, dict) else x for x in o[1:]]) for o in js]
+
+
+def run_histories(ctx, mdl, cfgs):
+    rng = ctx.rng.fork("histories")
+    nsamp = ctx.n(4000, 20000)
+    # ---- one Source, many calls
+    pool = [c for c in cfgs if not c.perfect() and c.t > 0]
+    plans = []
+    for i in range(ctx.n(45, 600)):
+        hr = rng.fork(("sh", i))
+        cfg = hr.choice(pool)
+        plans.append((cfg, gen_source_history(hr, cfg)))
+    mdl.prefetch([r for cfg, ops in plans for r in source_history_requests(cfg, ops)])
+    for i, (cfg, ops) in enumerate(plans):
+        seed0 = ctx.seed * 7907 + i
+        res = run_source_history(mdl, cfg, ops, nsamp, seed0)
+        filt = [op[2] for op in ops if op[0] in ("sample", "table") and op[2]]
+        ctx.case(["source-history", cfg.key(), ops], len(set(filt)) >= 2, {"source": cfg.describe(), "history": ops_to_json(ops)})
+        ctx.count("history.source.ops", len(ops))
+        for sig, what, exp, obs, step in res:
+            small = shrink_ops(ops[:step + 1], sig, lambda o: run_source_history(mdl, cfg, o, nsamp, seed0))
+            again = [r for r in run_source_history(mdl, cfg, small, nsamp, seed0) if r[0] == sig]
+            if again:
+                _, what, exp, obs, step = again[0]
+            ctx.fail(sig, what, {"source": cfg.describe(), "history_on_one_Source": ops_to_json(small), "failing_step": step,
+                                 "samples": nsamp, "seed0": seed0}, exp, obs)
+    ctx.streams["histories on one Source (distribution / table / sampler, varying input and filter)"] = len(plans)
+    # ---- one Processor, noise replaced / mutated in place / None
+    pplans = []
+    ppool = [c for c in cfgs if c.t > 0]
+    for i in range(ctx.n(40, 500)):
+        hr = rng.fork(("ph", i))
+        pplans.append(gen_proc_history(hr, ppool))
+    mdl.prefetch([r for first, inp0, ops in pplans for r in proc_history_requests(first, inp0, ops)])
+    npsamp = ctx.n(2000, 10000)
+    for i, (first, inp0, ops) in enumerate(pplans):
+        seed0 = ctx.seed * 7907 + 100000 + i
+        res = run_proc_history(mdl, first, inp0, ops, npsamp, seed0)
+        kinds = {op[0] for op in ops}
+        ctx.case(["proc-history", cfg_to_json(first), inp0, ops_to_json(ops)], "mutate" in kinds or "none" in kinds,
+                 {"first_noise": cfg_to_json(first), "input": inp0, "history": ops_to_json(ops)})
+        for k in kinds:
+            ctx.count("history.processor." + k)
+        for sig, what, exp, obs, step in res:
+            small = shrink_ops(list(ops[:max(step, 1)]), sig, lambda o: run_proc_history(mdl, first, inp0, o, npsamp, seed0)) \
+                if step > 0 else []
+            again = [r for r in run_proc_history(mdl, first, inp0, small, npsamp, seed0) if r[0] == sig]
+            if again:
+                _, what, exp, obs, step = again[0]
+            ctx.fail(sig, what, {"first_noise": cfg_to_json(first), "input": inp0, "history_on_one_Processor": ops_to_json(small),
+                                 "failing_step(0=construction)": step, "samples": npsamp, "seed0": seed0}, exp, obs)
+    ctx.streams["histories on one Processor (noise new / mutated in place / reassigned / None, input, sampling)"] = len(pplans)
+
+
 # ------------------------------------------------------------------ main
 def run(ctx):
     import perceval as pcvl
@@ -660,6 +1104,10 @@ def run(ctx):
         ctx.count("sampler.filtered" if f else "sampler.unfiltered")
     ctx.streams["generate_samples goodness-of-fit"] = len(splan)
 
+    # ------------------------------------------------------------ histories on one object
+    run_histories(ctx, mdl, cfgs)
+    ctx.log("histories done")
+
     # ------------------------------------------------------------ inadmissible parameters must be rejected, not mis-modelled
     from perceval.components.source import Source
     bad = [dict(emission_probability=0), dict(emission_probability=1.2), dict(losses=1.5), dict(losses=-0.1),
@@ -688,6 +1136,16 @@ def replay(ctx, case):
     """Re-run the checks on a recorded failing case."""
     print(json.dumps(case, indent=1))
     c = case.get("case", {})
+    if "history_on_one_Source" in c:
+        out = run_source_history(M(ctx), cfg_from_json(c["source"]), ops_from_json(c["history_on_one_Source"]),
+                                 c["samples"], c["seed0"])
+        print("\n".join("FAIL " + str(r) for r in out) or "no failure reproduced")
+        return
+    if "history_on_one_Processor" in c:
+        out = run_proc_history(M(ctx), cfg_from_json(c["first_noise"]), c["input"],
+                               ops_from_json(c["history_on_one_Processor"]), c["samples"], c["seed0"])
+        print("\n".join("FAIL " + str(r) for r in out) or "no failure reproduced")
+        return
     s = c.get("source")
     if not s:
         return
